@@ -97,6 +97,10 @@ impl FileSystem for OverlayFS {
                 }
             }
         }
+        if path.is_empty() {
+            // the bookkeeping directory is not an entry of the overlay
+            entries.remove(".whiteout");
+        }
         // remove whiteout entries that have been removed
         let whiteout_path = self.write_layer().join(format!(".whiteout{}", path))?;
         if whiteout_path.exists()? {
